@@ -38,7 +38,7 @@ STUBS = common.STUBS_ALL
 PROBES = ['sensors_start_at_different_instants', 'cut_at_window_edge', 'empty_batch', 'pastified', 'skewed_schedule', 'one_sample_batches', 'schedules_enumerated_exhaustively',
           'epoch_time_stamps', 'nano_scale_values', 'one_sensor_1000_samples_ahead']
 INTERLEAVING_MEASURE = 'distinct chunking patterns (per variable: tuple of batch sizes per update)'
-ENVELOPE_RULES = ['memory-past-above-delayed (F08)',
+ENVELOPE_RULES = ['memory-past-above-delayed (F08), narrowed: only a past operator with UNBOUNDED memory (once, historically, since) above a sub-formula with horizon > 0 is excluded; with bounded memory m (prev/s_prev/rise/fall: 1, bounded operators: their upper bound, summed along nesting) the comparison starts m updates after the horizon (common.warmup_extra)',
                   'bounded-op-nonzero-start (F14a): offline comparison skipped, schedules still compared']
 
 ONLINE_OPS = set(common.DENSE_PAST_OPS)
@@ -54,7 +54,7 @@ def _memory_above_future(ast):
 
 
 def envelope(sc):
-    return common.warmup_visible(sc['ast']) if sc.get('pastify') else []
+    return common.f08_blind(sc['ast']) if sc.get('pastify') else []
 
 
 def gen(rng, tier):
@@ -212,6 +212,8 @@ def run(sc):
     ast, signals, vars_ = sc['ast'], sc['signals'], sc['vars']
     used = sg.vars_of(ast)
     h = sg.horizon(ast) * common.DENSE_TICK
+    # F08 region with bounded memory: the offline comparison starts once the warm-up left every operator's memory
+    wx = (common.warmup_extra(ast) * common.DENSE_TICK) if sc.get('pastify') else 0
     try:
         ref = D.eval_dense(ast, dict((v, signals[v]) for v in used))
     except RefError:
@@ -294,7 +296,7 @@ def run(sc):
         r.sim_time += hi - lo
         # compare with offline shifted by h on the covered span (where the offline function is defined)
         s0 = max(off_f[0][0], s_true) if off_f else float('inf')
-        pts = [t for t in D.check_points([fn, [(p[0] + h, p[1]) for p in off_f]], lo, hi) if t - h >= s0] if offline_usable else []
+        pts = [t for t in D.check_points([fn, [(p[0] + h, p[1]) for p in off_f]], lo, hi) if t - h >= s0 + wx] if offline_usable else []
         for t in pts:
             iv = D.at(fn, t)
             ov = D.at(off_f, t - h)
